@@ -63,6 +63,61 @@ class Step(VC):
         ob.twin("twin.tally_never_changes", spec_eq(ctx, p0.get("votes"), p1.get("votes")) if (v == "Vote" and f.on_focus and p1 is not None) else False)
 
 
+class LargeVote(VC):
+    """a proposal of the fixed multisig that already carries more ballots than a default ListVotes page (11 of 12 voters have
+    voted Yes with their own weights) receives the last voter's ballot: the recorded tally must still be the sum of all recorded
+    ballots and the stored status the one the kernel derives from it"""
+    property_id = "C03"
+    crate = FIXED
+    extra_crates = ("cw3",)
+    N = 12
+    name = "C03.fixed.Vote[12 voters, 11 ballots]"
+
+    def run(self, I, ctx, ob):
+        from mirsym import replay as _rp
+        from mirsym.ctx import MapStore
+        install_kernel_abstraction(I, ctx)
+        n = self.N
+        V = sorted(_rp.addr_pool(n, prefix="voter"))
+        cfg = sym_item(I, ctx, "config", "state::Config", FIXED, present=True).value
+        cnt = sym_item(I, ctx, "proposal_count", "u64", FIXED, present=True)
+        cw2_item(I, ctx, FIXED)
+        pid = ctx.fresh_int("focus.id", 1, U64)
+        ctx.assume(pid <= cnt.value)
+        ctx.bounds["vec"] = 1
+        focus = symval.fresh(I, ctx, "cw3::Proposal", "focus", None, FIXED)
+        props = MapStore("proposals", [[(pid,), True, focus]], ["u64"], "cw3::Proposal")
+        ctx.storage["proposals"] = props
+        W = [ctx.fresh_int(f"weight[{i}]", 1, U64) for i in range(n)]
+        ctx.storage["voters"] = MapStore("voters", [[(a,), True, w] for a, w in zip(V, W)], None, "u64")
+        votes = MapStore("votes", [], ["u64", None], "cw3::Ballot")
+        for a, w in zip(V[:-1], W[:-1]):
+            votes.slots.append([(pid, a), True, Struct("Ballot", [w, EnumV("Vote", "Yes")], ["weight", "vote"])])
+        ctx.storage["votes"] = votes
+        total = zsum(W)
+        ctx.assume(total < U64)
+        ctx.assume(zand(cfg.get("total_weight") == total, focus.get("total_weight") == total))
+        vv = focus.get("votes")
+        ctx.assume(zand(vv.get("yes") == zsum(W[:-1]), vv.get("no") == 0, vv.get("abstain") == 0, vv.get("veto") == 0))
+        valid_threshold(I, ctx, focus.get("threshold"), focus.get("total_weight"))
+        env = mk_env(I, ctx)
+        blk = env.get("block")
+        ctx.assume(zand(znot(status_is(ctx, focus, "Pending")), status_inv(I, ctx, focus, blk), focus.get("start_height") <= blk.get("height")))
+        info = mk_info(I, ctx, sender=V[-1])
+        vote = symval.fresh(I, ctx, "cw3::Vote", "vote", None, FIXED)
+        m = EnumV("ExecuteMsg", "Vote", [pid, vote], ["proposal_id", "vote"])
+        outcome, r, pre = call_entry(I, ctx, ob, FIXED, "execute", "execute", [make_deps(), env, info, m], env, info, m, "msg::ExecuteMsg", FIXED)
+        if outcome != "Ok": return
+        post = ctx.storage
+        p1p, p1 = slot_map(post["proposals"])[(pid,)]
+        ob.require("C03.tally_equals_sum_of_ballots", zimplies(p1p, votes_match_ballots(ctx, post, p1)))
+        ob.require("C03.stored_status_is_justified_by_the_ballots", zimplies(p1p, zor(status_is(ctx, p1, "Executed"), status_inv(I, ctx, p1, blk))))
+        ob.require("C03.vote_stores_the_derived_status", _is_current(I, ctx, p1, blk))
+        ob.require("C03.twelfth_ballot_recorded", len(post["votes"].slots) == n and post["votes"].slots[-1][1] is True)
+        ob.witness("large_vote_ok")
+        ob.twin("twin.large_tally_never_changes", spec_eq(ctx, focus.get("votes"), p1.get("votes")))
+
+
 def variant_yes(ctx, ballot):
     from .cw20 import variant_is
     return variant_is(ctx, None, ballot.get("vote"), "Yes")
@@ -128,6 +183,7 @@ def vcs(tier):
     out = []
     for c in (FIXED, FLEX):
         out += [Step(c, v) for v in ("Propose", "Vote", "Execute", "Close")] + [Query(c)]
+    out.append(LargeVote())
     # two-call chains on one proposal (thorough): the second call is judged on the state the first really left behind
     if tier == "thorough":
         CHV = ("Vote", "Execute", "Close")
@@ -135,7 +191,8 @@ def vcs(tier):
     return out + kernel_fact_vcs(tier)
 
 
-BOUNDS = {"voters / group members with state": NV, "proposals with state": "1 focus (symbolic id and content) + 1 bystander", "messages per proposal": "<= 1",
+BOUNDS = {"large proposal": "fixed multisig, 12 concrete voters with symbolic weights, 11 recorded Yes ballots (more than a default ListVotes page), the twelfth voter casts any vote",
+          "voters / group members with state": NV, "proposals with state": "1 focus (symbolic id and content) + 1 bystander", "messages per proposal": "<= 1",
           "weights": "full u64", "thresholds": "all three kinds, valid", "block / expiry": "symbolic"}
 OUTSIDE = ("the arithmetic meaning of is_passed / is_rejected is C04's subject: here they are uninterpreted functions of (tally, total, threshold, expired) "
            "constrained by the facts C04 proves from their MIR (never both; passed => yes > 0; persistence under further votes and expiry)")
